@@ -774,8 +774,13 @@ class Machine:
             if op == 'Not':
                 if isinstance(x, bool):
                     return not x
-                if z3.is_bool(x):
+                if is_sym(x) and z3.is_bool(x):
                     return z3.Not(x)
+                # bitwise complement of a machine integer: two's complement identity !x = -x - 1 (signed), MAX - x (unsigned)
+                ity = self.int_ty_of(self.operand_ty(frame, a)) or self.int_ty_of(dest_ty)
+                if ity:
+                    lo, hi = INT_RANGE[ity]
+                    return (hi - x) if lo == 0 else (-x - 1)
             if op == 'PtrMetadata':
                 from .summaries import as_slice, str_items, deref as _deref
                 v = _deref(x)
